@@ -86,6 +86,8 @@ class M:
         return r
 
     def multiply(self, o):
+        if hasattr(o, "tolist") and not isinstance(o, M):
+            o = o.tolist()  # a numpy array of weights
         r = M.zeros(*self.shape)
         if isinstance(o, M):
             if self.shape != o.shape:
@@ -308,7 +310,13 @@ def build(spec):
         present = []
         for i, e in enumerate(cands):
             if bits[i]:
-                h.add_edge(e, weight=S.int("w%d" % i) if weighted else None)
+                if weighted and spec.get("wtype") == "real":
+                    wt = S.real("w%d" % i, lo=0.0, hi=8.0)
+                elif weighted and spec.get("wtype") == "frac":
+                    wt = S.real("w%d" % i, lo=0.25, hi=0.75)  # non-integral in every model
+                else:
+                    wt = S.int("w%d" % i) if weighted else None
+                h.add_edge(e, weight=wt)
                 present.append(tuple(sorted(e)))
         f = S.int("f")
         keep_iso = S.bool("keep_isolated_nodes")
@@ -407,6 +415,9 @@ def obligations(tier, seed):
         for fixed in itertools.product([0, 1], repeat=nfix):
             for weighted in (True, False):
                 out.append({"family": "matrix", "cands": cname, "fixed": list(fixed), "weighted": weighted})
+            if sum(fixed) == 2 or not q:
+                out.append({"family": "matrix", "cands": cname, "fixed": list(fixed), "weighted": True, "wtype": "real"})
+                out.append({"family": "matrix", "cands": cname, "fixed": list(fixed), "weighted": True, "wtype": "frac"})
     for k in (2, 3):
         for fixed in itertools.product([0, 1], repeat=1):
             out.append({"family": "tensor", "k": k, "fixed": list(fixed)})
@@ -484,14 +495,14 @@ def _norm(x):
 
 
 def budget(tier):
-    return {"timeout": 900.0 if tier == "quick" else 2400.0, "per_path": 60.0}
+    return {"timeout": 120.0 if tier == "quick" else 2400.0, "per_path": 60.0}
 
 
 META = {
     "bounds": {
         "quick": "Hypergraph with labels (10,3,7,5) or ('b','a','d','c'): every non-empty sub-family of 7 / 6 candidate "
-                 "hyperedges (sizes 1-4, one label isolated in many of them), weighted (symbolic integer weights) and "
-                 "unweighted; order an unbounded symbolic integer, keep_isolated_nodes symbolic; adjacency tensor of "
+                 "hyperedges (sizes 1-4, one label isolated in many of them), weighted (symbolic integer weights; real-valued weights for part of the "
+                 "families) and unweighted; order an unbounded symbolic integer, keep_isolated_nodes symbolic; adjacency tensor of "
                  "2- and 3-uniform hypergraphs on 0..3; temporal adjacency over 7 candidate records at 4 times",
         "thorough": "adds labels 0..3 with 7 candidates",
     },
